@@ -45,3 +45,9 @@ Definition wits_covered (w : wits) : bool :=
     end) (w_fields w).
 Definition tx_covered (tx : fixed_tx) : bool :=
   body_covered (ft_body tx) && aux_covered (ft_aux tx) && wits_covered (ft_wits tx).
+
+(* TransactionBody::to_bytes of the parsed body of a covered input: the canonical encoding of the decoded value *)
+Definition body_canonical (b : bytes) : option bytes :=
+  if body_covered b then
+    match dec (TransactionBody schema_depth) b with Ok (v, _) => Some (enc (TransactionBody schema_depth) v) | _ => None end
+  else None.
